@@ -70,7 +70,8 @@ def resample_jackknife(observations: NDArray, patch_rows: bool = True) -> NDArra
     idx_range = np.arange(0, num_patches)
     idx_samples_full = np.tile(idx_range, num_patches)
 
-    idx_jackknife = np.delete(idx_samples_full, idx_range).reshape((num_patches, -1))
+    idx_drop = idx_range * (num_patches + 1)  # k-th patch in the k-th repetition
+    idx_jackknife = np.delete(idx_samples_full, idx_drop).reshape((num_patches, -1))
     return observations[idx_jackknife].sum(axis=1)
 
 
